@@ -48,6 +48,8 @@ pub struct ServerAeadCodec {
     keys: Vec<[u8; 16]>,
     decode_state: DecodeState,
     encode_state: EncodeState,
+    /// the first message (connect / first datagram) has been handed out
+    connected: bool,
 }
 
 impl ServerAeadCodec {
@@ -191,6 +193,7 @@ impl Decoder for ServerAeadCodec {
                         debug!("New session; {}", session);
                         let mut decoder = AEADBodyCodec::new_decoder(&header, &mut session)?;
                         let res = Self::decode_header(src, &mut header, &mut session, &mut decoder);
+                        self.connected = matches!(res, Ok(Some(_)));
                         self.decode_state = DecodeState::Ready(header, session, Box::new(decoder));
                         res
                     } else {
@@ -203,6 +206,10 @@ impl Decoder for ServerAeadCodec {
             DecodeState::Ready(ref mut header, ref mut session, ref mut decoder) => {
                 if src.is_empty() {
                     Ok(None)
+                } else if !self.connected {
+                    let res = Self::decode_header(src, header, session, decoder)?;
+                    self.connected = res.is_some();
+                    Ok(res)
                 } else {
                     Self::decode_body(src, header, session, decoder)
                 }
@@ -217,6 +224,6 @@ impl TryFrom<&ServerConfig<SslConfig>> for ServerAeadCodec {
     fn try_from(config: &ServerConfig<SslConfig>) -> Result<Self, Self::Error> {
         let uuid = config.user.iter().map(|u| &u.password).collect();
         let keys = id::from_passwords(uuid)?;
-        Ok(Self { keys, decode_state: DecodeState::Init, encode_state: EncodeState::Init })
+        Ok(Self { keys, decode_state: DecodeState::Init, encode_state: EncodeState::Init, connected: false })
     }
 }
